@@ -1,6 +1,7 @@
 package gov
 
 import (
+	"math/big"
 	"fmt"
 	"go/constant"
 	"go/token"
@@ -60,9 +61,26 @@ func (fr *Frame) constTerm(c *ssa.Const) Term {
 }
 
 func (fr *Frame) floatConst(text string) Term {
+	fr.useF64()
 	name := "f64." + sanitize(text)
 	fr.R.Sc.Preamble("f64:"+name, fmt.Sprintf("(declare-fun %s () F64)", name))
+	// a constant that is an integer of magnitude at most 2^53 belongs to the exact-integer fragment
+	if r, ok := new(big.Rat).SetString(text); ok && r.IsInt() {
+		lim := new(big.Int).Lsh(big.NewInt(1), 53)
+		if n := r.Num(); new(big.Int).Abs(n).Cmp(lim) <= 0 {
+			lit := n.String()
+			if n.Sign() < 0 {
+				lit = "(- " + new(big.Int).Abs(n).String() + ")"
+			}
+			fr.R.Sc.Preamble("f64val:"+name, fmt.Sprintf("(assert (= %s (f64.of.int %s)))", name, lit))
+		}
+	}
 	return T(name, SF64)
+}
+
+func (fr *Frame) useF64() {
+	fr.R.Sc.UseF64()
+	fr.R.Trusted["float64 is uninterpreted except on integers of magnitude <= 2^53 (comparison, abs, neg, trunc, finiteness, conversion back to int64: IEEE-754 facts proved by the raw lemmas specs/lemmas/C12-f64-*.smt2)"] = true
 }
 
 // termOf returns the SMT term of a value (pointers become reference terms).
@@ -672,6 +690,7 @@ func (fr *Frame) execUnOp(in *ssa.UnOp) {
 	case token.SUB:
 		x := fr.termOf(fr.val(in.X))
 		if x.Sort == SF64 {
+			fr.useF64()
 			fr.R.Sc.DeclareFun("f64.neg", []Sort{SF64}, SF64)
 			fr.env[in] = TV(app(SF64, "f64.neg", x))
 			return
@@ -792,6 +811,7 @@ func (fr *Frame) binop(op token.Token, x, y Term, xt, yt, rt types.Type, pos tok
 			return app(SBool, "str.<=", y, x)
 		}
 	case SF64:
+		fr.useF64()
 		name := "f64." + map[token.Token]string{token.ADD: "add", token.SUB: "sub", token.MUL: "mul", token.QUO: "div", token.LSS: "lt", token.LEQ: "le", token.GTR: "gt", token.GEQ: "ge"}[op]
 		switch op {
 		case token.EQL:
@@ -942,9 +962,11 @@ func (fr *Frame) execConvert(in *ssa.Convert) {
 	case fs == SSlice && ts == SSlice:
 		fr.env[in] = TV(x)
 	case fromInt && ts == SF64:
+		fr.useF64()
 		fr.R.Sc.DeclareFun("f64.of.int", []Sort{SInt}, SF64)
 		fr.env[in] = TV(app(SF64, "f64.of.int", x))
 	case fs == SF64 && toInt:
+		fr.useF64()
 		fr.R.Sc.DeclareFun("int.of.f64", []Sort{SF64}, SInt)
 		r := fr.define(in.Name(), app(SInt, "int.of.f64", x))
 		fr.typeFacts(r, in.Type())
